@@ -218,7 +218,7 @@ def c05(rep, tier, seed):
     suite_vec.mc(rep, tier)
     suite_vec.gen(rep, tier, ["elem"], C05_CL)
     suite_table.gen(rep, tier, ["arith"], ("table_arith", "table_width_mismatch"))
-    suite_table.enumerated(rep, "methods", ("broadcast",))
+    suite_table.enumerated(rep, "methods", ("broadcast", "length_mismatch"))
     suite_vec.forms(rep, ("form_elementwise", "history_read"))          # tuple / range / Vector / Row / column / one-shot iterables as operand
     suite_vec.trace(rep, tier, seed, C05_CL, ops=("elem",))
     suite_heap.gen(rep, tier, "obsv1", ("obs_unary",))      # unary results after any history = on a fresh equal vector
@@ -229,7 +229,7 @@ def c06(rep, tier, seed):
     suite_vec.mc(rep, tier)
     suite_vec.gen(rep, tier, ["na", "elem"], C06_CL)
     suite_vec.trace(rep, tier, seed, C06_CL, ops=("elem", "na"))
-    suite_vec.forms(rep, ("form_compare_none", "history_read"))
+    suite_vec.forms(rep, ("form_compare_none", "history_read", "form_none_propagates"))
     # "... and the per-group aggregates": groups holding None (also nothing but None) in aggregate and window
     suite_group.gen(rep, tier, ("agg_value", "window_value", "reduce_value"))
     suite_heap.gen(rep, tier, "obsv1", ("obs_na", "obs_stats"))
@@ -240,6 +240,7 @@ def c07(rep, tier, seed):
     suite_vec.mc(rep, tier)
     suite_vec.gen(rep, tier, ["slice", "mask", "int", "elem"], C07_CL)
     suite_table.gen(rep, tier, ["select"], ("missing_column", "select_cols", "string_index", "commute"))
+    suite_table.enumerated(rep, "struct", ("missing_column",))      # also names that are attributes of Table / Vector
     suite_vec.trace(rep, tier, seed, C07_CL, ops=("slice", "mask"))
     suite_vec.forms(rep, ("form_index", "grid_read", "derived_independent", "form_compare_none"))      # incl. t[rows, cols] with every combination of key kinds against the plain grid
     suite_misc.gen(rep, ["tcompare", "isinstance"], ("table_compare", "table_compare_dtype"))   # t == x ...: one <bool> column per column, None compares False
@@ -259,6 +260,8 @@ def c08(rep, tier, seed):
     suite_vec.forms(rep, ("form_assign", "form_assign_atomic", "grid_write", "grid_atomic"))
     suite_repo.validate(rep, {"setitem"}, ("assign", "assign_reject", "atomic"))              # every v[key] = x the repository's own tests execute
     suite_heap.gen(rep, tier, "tables", ("contents@target", "write_error", "setattr_error"))
+    # cell assignment keyed by a column NAME after renames made through a live column / rename_column: the addressed cells only
+    suite_heap.gen(rep, tier, "names", ("lookup", "contents@target", "contents@other", "write_error"))
 
 
 def c17(rep, tier, seed):
@@ -350,7 +353,7 @@ def c18(rep, tier, seed):
     suite_join.gen(rep, "quick", '{"inner","full"}', '{"many_to_many"}', cl)
     suite_sort.gen(rep, "quick", cl)
     suite_group.gen(rep, "quick", cl)
-    suite_heap.mc(rep, tier, ["names"])
+    suite_heap.mc(rep, tier, ["names"], coverage=False)       # (the vacuity guard of this facet runs in C17)
     suite_heap.gen(rep, tier, "names", cl)
     suite_heap.gen(rep, tier, "obst3", ("obs_agg", "obs_names"))       # aggregate / window output names after rename histories
     if not q:
